@@ -134,6 +134,10 @@ def jobs(tier, seed):
     for d in [["Multiply", ["NthRoot", X, 3], Y], ["Divide", ["NthPower", X, 3], Y], ["Logarithm", X, 10], ["Multiply", ["Exponential", X], ["Sine", Y]],
               ["Power", X, Y], ["Add", ["Multiply", X, Y], ["Reciprocal", X]]]:
         js.append({"mode": "ldroutes", "d": d})
+    # USED objects against never-used twins: an object that was hashed / printed / evaluated / differentiated / simplified before, and objects derived
+    # from it afterwards (its simplified form, its symbolic partial, its first operand), are still equal to, and hash like, their never-used twins
+    for a, b, c, tag in aged_pairs(tier):
+        pair(a, b, c, tag=tag, containers=True)
     pair(["expr", ["const", SYM("c1")]], ["expr", ["const", SYM("c2")]], tag="symbolic", twin="claim-never-equal")
     pair(["expr", ["NthPower", X, SYM("n1")]], ["expr", ["NthPower", X, SYM("n2")]], int_inputs=["n1", "n2"], tag="symbolic", twin="claim-always-equal")
     for i, j in enumerate(js):
@@ -141,7 +145,58 @@ def jobs(tier, seed):
     return js
 
 
+AGED_BASES = [["NthPower", ["Add", X, ["const", 0]], 3], ["Logarithm", ["Multiply", ["const", 1], X], 2],
+              ["Add", ["Sine", ["Negation", ["Negation", X]]], Y], ["Multiply", ["NthRoot", ["Add", X, ["const", 0]], 3], ["Exponential", ["Minus", Y, ["const", 0]], 2]],
+              ["Reciprocal", ["Multiply", X, Y]], ["NthPower", ["Sine", X], 2], ["Exponential", ["Negation", X]], ["Add", X, ["const", SYM("c1")]]]
+AGES = [["hash"], ["repr"], ["hash", "repr", "at", "fwd", "rev"], ["norm", "hash"], ["early", "diff_early", "norm", "norm", "repr"],
+        ["parent_norm", "parent_early", "hash"], ["at_missing", "asexp", "repr", "hash"]]
+DERIVES = ["self", "norm", "asexp", "inner", "inner_of_norm"]
+
+
+def aged_pairs(tier):
+    out = []
+    for bi, d in enumerate(AGED_BASES):
+        for ai, ages in enumerate(AGES):
+            for di, how in enumerate(DERIVES):
+                if tier == "quick" and (bi + ai + di) % 2 and not (ai < 2 and how == "norm"):
+                    continue
+                out.append((["aged", ["expr", d], ages, how], ["aged", ["expr", d], [], how], None, "used:" + how))
+    # derivative objects that reach their stored symbolic partial through different routes
+    for z in (["NthPower", ["Sine", X], 2], ["Reciprocal", ["Multiply", X, Y]], ["Multiply", ["Exponential", X], ["Sine", ["Multiply", X, Y]]],
+              ["Divide", ["Logarithm", X], ["NthRoot", Y, 3]]):
+        P0, P1 = ["Partial", z, "x", 0], ["Partial", z, "x", 1]
+        out.append((["aged", P0, ["asexp"]], ["diffcomp", z, "x", 1], P0, "used:routes"))
+        out.append((["aged", P1, ["at", "hash"]], ["aged", ["diffcomp", z, "x", 0], ["asexp", "repr"]], P1, "used:routes"))
+        out.append((["aged", ["diffcomp", z, "obj:x", 1], ["asexp", "at"]], ["aged", P0, ["asexp", "hash"]], ["diffcomp", z, "x", 0], "used:routes"))
+        out.append((["aged", ["Differential", z, 0], ["asexp", "at", "hash"]], ["Differential", z, 1], ["aged", ["Differential", z, 1], ["asexp"]], "used:routes"))
+        if len(rt.variables_of(z)) == 1:
+            out.append((["aged", ["Derivative", z, 0], ["asexp", "repr"]], ["Derivative", z, 1], ["aged", ["Derivative", z, 0], ["at"]], "used:routes"))
+            out.append((["aged", ["Derivative", z, 0], ["asexp"]], ["aged", ["Partial", z, "x", 1], ["asexp"]], None, "used:routes"))
+    return out
+
+
+def canon(o):
+    """the value an object spec denotes, as a plain spec (how it was obtained and what was done with it before do not matter)"""
+    if o is None:
+        return None
+    if o[0] == "aged":
+        how = o[3] if len(o) > 3 else "self"
+        base = canon(o[1])
+        if how == "self":
+            return base
+        if how == "inner" and base[0] == "expr":
+            return ["expr", base[1][1]]
+        return ["derived", base, how]
+    if o[0] == "diffcomp":
+        return ["Partial", o[1], o[2], o[3]]
+    if o[0] == "diffat":
+        return ["LocatedDifferential", o[1], o[2]]
+    return o
+
+
 def collect_syms(o, acc):
+    if o is not None and o[0] == "aged":
+        return collect_syms(o[1], acc)
     def num(v):
         if isinstance(v, (list, tuple)) and len(v) == 2 and v[0] == "sym" and v[1] not in acc:
             acc.append(v[1])
@@ -223,6 +278,10 @@ def pt_eq(p1, p2, env):
 
 
 def o_eq(a, b, env):
+    a, b = canon(a), canon(b)
+    if a[0] == b[0] == "derived":
+        # the same derivation from equal bases (only such pairs are generated)
+        return o_eq(a[1], b[1], env) if a[2] == b[2] else z3.BoolVal(False)
     if a[0] != b[0]:
         return z3.BoolVal(False)
     k = a[0]
@@ -264,19 +323,20 @@ def vcs(spec, ctx, outs):
     res = []
     if spec["mode"] == "ldroutes":
         o = outs[0]
+        nm = "LocatedDifferential-obtained-through-any-route:printed-text-evaluates-to-an-equal-object" if spec.get("roundtrip") else "same-LocatedDifferential-through-different-routes"
 
         def judge(val, couts):
             c = couts[0]
             if c["kind"] != "value":          # DomainError outside the domain; OverflowError etc. are excluded by the property (C17 owns foreign errors)
                 return None
-            return None if c.get("value") is True else f"LocatedDifferential objects of equal expression and point compare unequal: {c}"
+            return None if c.get("value") is True else f"{nm} fails: {c}"
         if o["kind"] == "value" and o["value"] is True:
-            return [VC("same-LocatedDifferential-through-different-routes:equal-over-the-reals", None, None, {"failed": False}),
-                    VC("same-LocatedDifferential-through-different-routes:floating-point", z3.BoolVal(True), judge,
+            return [VC(nm + ":equal-over-the-reals", None, None, {"failed": False}),
+                    VC(nm + ":floating-point", z3.BoolVal(True), judge,
                        {"concrete_only": True, "candidates": ROUNDING_PRONE})]
         if o["kind"] == "DomainError":
-            return [VC("same-LocatedDifferential-through-different-routes:outside-domain", None, None, {"failed": False})]
-        return [VC("same-LocatedDifferential-through-different-routes", z3.BoolVal(True), judge, {"candidates": ROUNDING_PRONE})]
+            return [VC(nm + ":outside-domain", None, None, {"failed": False})]
+        return [VC(nm, z3.BoolVal(True), judge, {"candidates": ROUNDING_PRONE})]
     if outs and outs[0].get("kind") == "skip":
         return []
     env = ctx.consts
@@ -321,10 +381,8 @@ def vcs(spec, ctx, outs):
     if spec.get("containers"):
         idx = base + len(spec.get("foreign", []))
         o = outs[idx]
-        if o["kind"] == "value" and o["value"] is True:
-            res.append(VC("set/dict-membership-consistent-with-==:holds", None, None, {"failed": False}))
-        elif o["kind"].startswith("exc:TypeError") or isinstance(o.get("value"), bool) is False:
-            # under the symbolic engine hash() is a term, real containers cannot be used: decided in the concrete replay only
+        if o["kind"] == "value" and o["value"] is True or o["kind"].startswith("exc:TypeError") or isinstance(o.get("value"), bool) is False:
+            # under the symbolic engine every hash value is 0 for the interpreter (all keys collide): real hashing is decided in the concrete replay
             def judge(val, couts):
                 c = couts[idx]
                 return None if (c["kind"] == "value" and c.get("value") is True) else f"set/dict membership inconsistent with ==: {c}"
